@@ -1,8 +1,8 @@
 from _common import COMMON_NOTE
 
 META = {'title': 'Play, stop and rewind behave like a cassette deck for every command history',
- 'lean_modules': ['ZxVerif.Props.C12', 'ZxVerif.Props.C11X'],
- 'extract': ['TapeConsts'],
+ 'lean_modules': ['ZxVerif.Props.C12', 'ZxVerif.Props.C11X', 'ZxVerif.Props.C12X'],
+ 'extract': ['TapeConsts', 'TapeMachine'],
  'modelled_code': ['rustzx-core/src/zx/tape/tap.rs (play, stop, rewind, state/prev_state, end of tape in process_clocks)',
                    'rustzx-core/src/zx/tape/mod.rs (TapeImpl)',
                    'rustzx-core/src/zx/tape/empty.rs (Empty: no tape inserted; trivial, not modelled)',
